@@ -453,7 +453,9 @@ def p6(ctx, res):
             txt = norm(it)
             if not ("__mro__" in txt or ".mro()" in txt or "__bases__" in txt or txt == new.params[2].name):
                 continue
-            if not any(isinstance(x, ast.Attribute) and x.attr == "properties" for b_ in body for x in ast.walk(b_)):
+            if not any((isinstance(x, ast.Attribute) and x.attr.lstrip("_") == "properties")
+                       or (isinstance(x, ast.Constant) and isinstance(x.value, str) and x.value.lstrip("_") == "properties")
+                       for b_ in body for x in ast.walk(b_)):
                 continue
             walks += 1
             backwards = isinstance(it, ast.Call) and dotted(it.func) == "reversed" or \
